@@ -19,6 +19,9 @@ def run(chk, replay):
     # code -> spec: level iteration and iter() recorded on large generated plotfiles and the assets (Reader!IterSpec in OpTrace.tla)
     from harness import optrace
     optrace.phase(chk, ["iter", "iter", "read"], "level iteration on large inputs", 60, 600, assets=["example_plt_3d", "example_plt_2d"], nops=6)
+    # the working directory changes between iterations over plotfiles opened under a relative name (PoolEnv.tla)
+    from harness import poolenv
+    poolenv.phase(chk, "iter")
     real_pool_phase(chk)
 
 
